@@ -160,6 +160,10 @@ func (s *Stream) reset() {
 	s.handshakeBuffer = s.handshakeBuffer[:cap(s.handshakeBuffer)]
 	s.state = StateHandshake
 	s.stream = nil
+	if s.conn != nil {
+		// the connection of an earlier handshake on this stream: it would otherwise stay open with nobody left to close it
+		_ = s.conn.Close()
+	}
 	s.conn = nil
 	s.src.Reset()
 	s.dst.Reset()
@@ -777,6 +781,8 @@ func (s *Stream) Handshake(addr string, extraHeaders ...Header) (err error) {
 
 	if err != nil {
 		s.state = StateTerminated
+		// terminated, not half-open: the connection of a failed handshake is closed
+		_ = s.CloseNextLayer()
 	} else {
 		s.state = StateActive
 		err = s.init(stream)
@@ -807,6 +813,8 @@ func (s *Stream) AsyncHandshake(addr string, callback func(error), extraHeaders 
 			_ = s.ioc.Post(func() {
 				if err != nil {
 					s.state = StateTerminated
+					// terminated, not half-open: the connection of a failed handshake is closed
+					_ = s.CloseNextLayer()
 				} else {
 					s.state = StateActive
 					err = s.init(stream)
